@@ -32,7 +32,20 @@ func conversionError(modifier string, value any, typ reflect.Type) error {
 	return typeErrorf("can't convert %s%T(%v) to type %s", modifier, value, value, typ)
 }
 
+// plainString turns a value of a named string type (other than json.Number) into a string.
+func plainString(value any) any {
+	switch value.(type) {
+	case string, json.Number, nil:
+		return value
+	}
+	if rv := reflect.ValueOf(value); rv.Kind() == reflect.String {
+		return rv.String()
+	}
+	return value
+}
+
 func convertValueToInt(value any, typ reflect.Type) (int64, error) {
+	value = plainString(value)
 	switch value := value.(type) {
 	case bool:
 		if value {
@@ -57,6 +70,7 @@ func convertValueToInt(value any, typ reflect.Type) (int64, error) {
 }
 
 func convertValueToFloat(value any, typ reflect.Type) (float64, error) {
+	value = plainString(value)
 	switch value := value.(type) {
 	// case int is handled by rv.Convert(typ) in Convert function
 	case string:
